@@ -79,11 +79,9 @@ def inproc_cfgs(orders: List[int]) -> List[Dict[str, Any]]:
     return [
         dict(ip),
         dict(ip, glob="patched", order="reversed"),
-        dict(ip, glob="patched", order=orders[3]),
-        dict(ip, glob="patched", order=orders[4], tmp="warm"),
-        dict(ip, prepop="stale", out="long"),
-        dict(ip, prepop="self", tmp="warm"),
-        dict(ip, prepop="noise", glob="patched", order=orders[5]),
+        dict(ip, glob="patched", order=orders[3], tmp="warm"),
+        dict(ip, prepop="stale", out="long", glob="patched", order=orders[4]),
+        dict(ip, prepop="self", glob="patched", order=orders[5]),
     ]
 
 
@@ -695,7 +693,7 @@ def replay(case: Any) -> List[Tuple[str, str]]:
 
 
 def shard(ctx: runner.Ctx) -> None:
-    n_gen = ctx.n(256, 2_400)
+    n_gen = ctx.n(224, 2_400)
     n_single = ctx.n(64, 800)  # cases that are also run as real single-invocation processes
     fsaudit.install()
     base = ctx.scratch
